@@ -1,10 +1,11 @@
 (* One time step of the one-site TDVP classes over the Layer-W store (Evo/TDVPStore.v): the trace of Sched/TDVP.v,
    proved schedule-correct for every tree (cache_fresh_universal), is simulated on the store; the invariant between two
    updates is: store invariant, same tree as at the start, isometry attribute at the recorded centre.  Every event
-   succeeds; every edge and every open leg keeps its dimension (KEEP mode).  Last part: the tree read off a well-formed store (tree_of) is a legitimate argument.  Proofs only. *)
+   succeeds; every edge and every open leg keeps its dimension (KEEP mode).
+   Last part: the two-site step (structure: success, invariant, same tree, centre).  Last part: the tree read off a well-formed store (tree_of) is a legitimate argument.  Proofs only. *)
 From Coq Require Import List Arith Bool Lia Permutation ZArith.
 From PTN Require Import TTN.Store TTN.StoreProofs TTN.Canon TTN.CanonProofs TTN.Inv TTN.InvProofs TTN.InvNode
-  TTN.InvContract TTN.CanonTree TTN.CanonMore TTN.CanonStep TTN.CanonDist TTN.CanonPath TTN.CanonIso Evo.TDVPStoreEffects.
+  TTN.InvContract TTN.CanonTree TTN.CanonMore TTN.CanonStep TTN.CanonDist TTN.CanonPath TTN.CanonIso Evo.TDVPStoreEffects Evo.TDVPTwoSite.
 From PTN Require Import Tree.RTree Tree.RTreeProofs Tree.Nav Tree.UpdatePath Tree.UpdatePathProofs Tree.CachePath Sched.TDVP Sched.TDVPProofs Sched.TDVPFreshU Evo.TDVPStore.
 Import ListNotations.
 
@@ -804,5 +805,171 @@ Proof.
   intros Hw Hs M Wb Hu Hiso Ft Fl H. unfold tdvp2_step_t in H.
   destruct (cache_fresh_universal t Hw Hs) as (_ & (tr & Htr & Hok) & _). rewrite Htr in H.
   apply (step_shapes lk tmp t tr s u rest cs' (blocked_trace2 t tr Htr) Hok M Wb Hu (first_in_ids t u rest Hw Hu) Hiso Ft Fl H).
+Qed.
+
+(* ==== part 7 ==== *)
+(* ==== two-site TDVP: structure ================================================================================== *)
+(* the two-site trace has no split / link / absorb events *)
+Definition okev2 (e : ev) : bool :=
+  match e with TDVP.Split _ _ | Link _ _ _ | Absorb _ _ => false | _ => true end.
+
+Lemma okev2_moves p : forallb okev2 (moves p) = true.
+Proof.
+  unfold moves. destruct p as [|a p]; [reflexivity|]. cbn [forallb okev2 andb].
+  generalize (consec (a :: p)). intros l. induction l as [|x l IH]; cbn; [reflexivity|exact IH].
+Qed.
+
+Lemma okev2_concat_opt {B} (f : B -> option (list ev)) l r :
+  concat_opt (map f l) = Some r -> (forall i es, In i l -> f i = Some es -> forallb okev2 es = true) -> forallb okev2 r = true.
+Proof.
+  revert r. induction l as [|i l IH]; intros r H Hall.
+  - cbn in H. injection H as <-. reflexivity.
+  - cbn [map] in H. apply concat_opt_cons in H. destruct H as (x & y & Hx & Hy & ->).
+    rewrite forallb_app. apply andb_true_iff. split; [apply (Hall i x); [left; reflexivity|exact Hx]|].
+    apply IH; [exact Hy|]. intros j es Hj. apply Hall. right. exact Hj.
+Qed.
+
+Lemma okev2_trace2s t tr : trace2s t = Some tr -> forallb okev2 tr = true.
+Proof.
+  unfold trace2s. destruct (update_path t) as [up|]; [|discriminate].
+  destruct (orth_paths t up) as [op|]; [|discriminate]. unfold trace2s_of.
+  destruct (nth_error (rev up) 1) as [y|]; [|discriminate]. destruct (nth_error (rev up) 0) as [z|]; [|discriminate]. intros H.
+  apply opt_app_Some in H. destruct H as (x1 & y1 & H1 & H & ->).
+  apply opt_app_Some in H. destruct H as (x2 & y2 & H2 & H3 & ->). injection H2 as <-.
+  rewrite !forallb_app. apply andb_true_iff. split; [|apply andb_true_iff; split; [reflexivity|]].
+  - apply (okev2_concat_opt _ _ _ H1). intros i es _. unfold t2s_forward.
+    destruct (nth_error up i) as [n|]; [|discriminate].
+    destruct (if Nat.eqb i 0 then Some [] else nth_error op (i - 1)) as [p|]; [|discriminate].
+    destruct (nth_error op i) as [[|nx ?]|]; try discriminate. intros [= <-].
+    rewrite forallb_app, okev2_moves. reflexivity.
+  - apply (okev2_concat_opt _ _ _ H3). intros i es _. unfold t2s_backward.
+    destruct (nth_error (back_orth_paths2 op) i) as [p|]; [|discriminate].
+    destruct (nth_error (rev up) (i + 1)) as [nx|]; [|discriminate].
+    destruct (last_opt p) as [tg|]; [|discriminate]. intros [= <-].
+    rewrite forallb_app, okev2_moves. reflexivity.
+Qed.
+
+Definition count_two (tr : list ev) : nat := length (filter (fun e => match e with TwoSite _ _ _ => true | _ => false end) tr).
+
+(* the invariant between two updates, without canonical form *)
+Record tinv2 (l0 : list (id * node)) (s : store) (c : id) : Prop := {
+  t2_wf : Inv.wf s;
+  t2_same : same_tree l0 (nodes s);
+  t2_c : amem c (nodes s) = true
+}.
+
+Lemma ev_fold2_none lk tw tmp tr : fold_left (ev_fold2 lk tw tmp) tr None = None.
+Proof. induction tr as [|e tr IH]; cbn; [reflexivity|exact IH]. Qed.
+
+Section Sim2.
+  Variables (t : rtree) (l0 : list (id * node)) (lk tw : id -> id -> id) (tmp : id).
+  Hypothesis M : tmatch t l0.
+  Hypothesis Ftmp : aget tmp l0 = None.
+  Hypothesis Ftw : forall a b, aget (tw a b) l0 = None.
+
+  Lemma sim2_event e c c1 s bds :
+    okev2 e = true -> pend c = None -> exec t c e = Some c1 -> tinv2 l0 s (centre c) ->
+    count_two [e] <= length bds ->
+    (exists st1, ev_step2 lk tw tmp ((s, Some (centre c)), bds) e = Some st1) /\
+    forall cs1 bds1, ev_step2 lk tw tmp ((s, Some (centre c)), bds) e = Some (cs1, bds1) ->
+      tinv2 l0 (fst cs1) (centre c1) /\ snd cs1 = Some (centre c1) /\ pend c1 = None /\
+      length bds1 + count_two [e] = length bds.
+  Proof.
+    intros Hok Hpend Hex [W S C] Hb. pose proof (exec_sound _ _ _ _ Hex) as Hreq.
+    assert (Ttmp : aget tmp (nodes s) = None) by (apply (same_tree_None _ _ _ S Ftmp)).
+    destruct e; try discriminate Hok; cbn [ev_step2 ev_step fst snd]; cbn [requires] in Hreq.
+    - (* Site *)
+      destruct Hreq as (Hc & _). subst n. cbn in Hex. destruct (_ && _ && _) in Hex; [|discriminate]. injection Hex as <-. cbn [centre pend].
+      destruct (site_update_some s (centre c) W C) as [s' Hs]. rewrite Hs. cbn [lift snd]. split; [eauto|].
+      intros cs1 bds1 [= <- <-]. cbn [fst snd]. destruct (site_update_same_tree _ _ _ Hs) as [S' K].
+      split; [|cbn; auto with arith]. constructor; [eapply site_update_wf; eauto|exact (same_tree_trans _ _ _ S S')|apply (same_tree_amem _ _ _ S' C)].
+    - (* SiteBack *)
+      destruct Hreq as (Hc & _). subst n. cbn in Hex. destruct (_ && _ && _) in Hex; [|discriminate]. injection Hex as <-. cbn [centre pend].
+      destruct (site_update_some s (centre c) W C) as [s' Hs]. rewrite Hs. cbn [lift snd]. split; [eauto|].
+      intros cs1 bds1 [= <- <-]. cbn [fst snd]. destruct (site_update_same_tree _ _ _ Hs) as [S' K].
+      split; [|cbn; auto with arith]. constructor; [eapply site_update_wf; eauto|exact (same_tree_trans _ _ _ S S')|apply (same_tree_amem _ _ _ S' C)].
+    - (* TwoSite *)
+      destruct Hreq as (Hc & _ & Hab & _). subst a. cbn in Hex. destruct (_ && _ && _ && _ && _) in Hex; [|discriminate]. injection Hex as <-. cbn [centre pend].
+      destruct (sim_adjacent t l0 M s (centre c) b W S Hab) as (na & Ea & Hin & Hb').
+      apply amem_aget in Hb'. destruct Hb' as [nb Eb].
+      destruct bds as [|bd rest]; [cbn in Hb; lia|].
+      pose proof (same_tree_None _ _ _ S (Ftw (centre c) b)) as Hnew.
+      destruct (two_site_update_some (tw (centre c) b) s (centre c) b bd na nb W Ea Eb Hin Hnew) as [s3 H3]. rewrite H3. split; [eauto|].
+      intros cs1 bds1 [= <- <-]. cbn [fst snd].
+      destruct (two_site_update_same_tree _ _ _ _ _ _ _ W Ea Hnew H3) as (_ & W3 & S3 & _).
+      split; [|cbn; repeat split; lia]. constructor; [exact W3|exact (same_tree_trans _ _ _ S S3)|].
+      apply (same_tree_amem _ _ _ S3). apply amem_aget. eauto.
+    - (* Move *)
+      destruct Hreq as (Hc & _ & Hab). cbn in Hex. destruct (_ && _ && _) in Hex; [|discriminate]. injection Hex as <-. cbn [centre pend].
+      destruct (sim_adjacent t l0 M s a b W S Hab) as (na & Ea & Hin & Hb').
+      destruct (move_center_some_struct s (centre c) b tmp W Ttmp C Hb') as [cs' Hm]. rewrite Hm. split; [eauto|].
+      intros cs1 bds1 [= <- <-].
+      destruct (move_center_struct s (centre c) b tmp cs' W Ttmp C Hb' Hm) as (W' & S' & _ & Hsnd).
+      split; [|cbn; auto with arith]. constructor; [exact W'|exact (same_tree_trans _ _ _ S S')|apply (same_tree_amem _ _ _ S' Hb')].
+    - (* Cache *)
+      destruct Hreq as (Hab & _). cbn in Hex. destruct (_ && _) in Hex; [|discriminate]. injection Hex as <-. cbn [centre pend].
+      destruct (sim_adjacent t l0 M s n m W S Hab) as (na & Ea & _).
+      destruct (acc_some s n W) as [s' Hs]; [apply amem_aget; eauto|]. rewrite Hs. cbn [lift snd]. split; [eauto|].
+      intros cs1 bds1 [= <- <-]. cbn [fst snd]. destruct (acc_same_tree _ _ _ Hs) as [S' K].
+      split; [|cbn; auto with arith]. constructor; [eapply acc_wf; eauto|exact (same_tree_trans _ _ _ S S')|apply (same_tree_amem _ _ _ S' C)].
+    - (* Reinit *)
+      cbn in Hex. injection Hex as <-. split; [eauto|]. intros cs1 bds1 [= <- <-]. cbn. split; [constructor; auto|auto with arith].
+    - (* AssertCentre *)
+      destruct Hreq as (Hc & _). cbn in Hex. destruct (_ && _) in Hex; [|discriminate]. injection Hex as <-.
+      rewrite Hc, Nat.eqb_refl. split; [eauto|]. intros cs1 bds1 [= <- <-]. cbn. rewrite Hc in C. split; [constructor; auto|auto with arith].
+    - (* AssertLeaf *)
+      cbn in Hex. destruct (is_leaf t n); [|discriminate]. injection Hex as <-. split; [eauto|]. intros cs1 bds1 [= <- <-]. cbn. split; [constructor; auto|auto with arith].
+    - (* AssertEnd *)
+      cbn in Hex. destruct (Nat.leb _ _); [|discriminate]. injection Hex as <-. split; [eauto|]. intros cs1 bds1 [= <- <-]. cbn. split; [constructor; auto|auto with arith].
+  Qed.
+
+  Lemma count_two_cons e tr : count_two (e :: tr) = count_two [e] + count_two tr.
+  Proof. unfold count_two. cbn. destruct e; reflexivity. Qed.
+
+  Theorem sim2_run : forall tr c c' s bds,
+    forallb okev2 tr = true -> pend c = None -> run t c tr = Some c' -> tinv2 l0 s (centre c) ->
+    count_two tr <= length bds ->
+    exists cs' bds', tdvp_run2 lk tw tmp ((s, Some (centre c)), bds) tr = Some (cs', bds') /\
+      tinv2 l0 (fst cs') (centre c') /\ snd cs' = Some (centre c') /\ pend c' = None /\
+      length bds' + count_two tr = length bds.
+  Proof.
+    induction tr as [|e tr IH]; intros c c' s bds Hok Hp Hrun Hinv Hb.
+    - cbn in Hrun. injection Hrun as <-. exists (s, Some (centre c)), bds. unfold tdvp_run2. cbn. auto with arith.
+    - cbn [forallb] in Hok. apply andb_true_iff in Hok. destruct Hok as [Hoe Hot].
+      apply run_cons_inv in Hrun. destruct Hrun as (c1 & X1 & Hrun).
+      rewrite count_two_cons in Hb.
+      destruct (sim2_event e c c1 s bds Hoe Hp X1 Hinv ltac:(lia)) as [[[cs1 bds1] Y1] Hsound].
+      destruct (Hsound cs1 bds1 Y1) as (Hinv1 & Hs1 & Hp1 & Hl1).
+      destruct cs1 as [s1 oc1]. cbn [fst snd] in *. subst oc1.
+      destruct (IH c1 c' s1 bds1 Hot Hp1 Hrun Hinv1 ltac:(lia)) as (cs' & bds' & Hst & Hinv' & Hs' & Hp' & Hl').
+      exists cs', bds'. split.
+      + unfold tdvp_run2 in *. cbn [fold_left ev_fold2]. rewrite Y1. exact Hst.
+      + split; [exact Hinv'|]. split; [exact Hs'|]. split; [exact Hp'|]. rewrite count_two_cons. lia.
+  Qed.
+End Sim2.
+
+Theorem tdvp2s_step_t_ok lk tw tmp t s u rest bds :
+  NoDup (ids t) -> 2 <= size t -> tmatch t (nodes s) -> wfb s = true -> update_path t = Some (u :: rest) ->
+  amem tmp (nodes s) = false -> (forall a b, amem (tw a b) (nodes s) = false) ->
+  (forall tr, trace2s t = Some tr -> count_two tr <= length bds) ->
+  exists cs' bds', tdvp2s_step_t lk tw tmp t (s, Some u) bds = Some (cs', bds') /\
+    wfb (fst cs') = true /\ same_tree (nodes s) (nodes (fst cs')) /\ root (fst cs') = root s /\
+    snd cs' = Some u /\ tmatch t (nodes (fst cs')) /\
+    (forall tr, trace2s t = Some tr -> length bds' + count_two tr = length bds).
+Proof.
+  intros Hw Hs M Wb Hu Ft Fw Hbd.
+  destruct (cache_fresh_universal t Hw Hs) as (_ & _ & (tr & Htr & Hok)).
+  destruct (sched_ok_start t tr Hok) as (u' & l' & c0 & c1 & Hu' & C0 & P0 & R & C1 & P1).
+  rewrite Hu in Hu'. injection Hu' as <- <-.
+  pose proof (wfb_wf s Wb) as W.
+  assert (Hinv : tinv2 (nodes s) s (centre c0)).
+  { rewrite C0. constructor; auto; [apply same_tree_refl|]. apply amem_true. apply (proj2 M). apply (first_in_ids t u rest Hw Hu). }
+  destruct (sim2_run t (nodes s) lk tw tmp M (amem_false_None _ _ Ft) (fun a b => amem_false_None _ _ (Fw a b)) tr c0 c1 s bds
+              (okev2_trace2s t tr Htr) P0 R Hinv (Hbd tr Htr)) as (cs' & bds' & Hst & [W' S' C'] & Hsnd & _ & Hl).
+  rewrite C0 in Hst. rewrite C1 in *.
+  exists cs', bds'. unfold tdvp2s_step_t. rewrite Htr. split; [exact Hst|].
+  split; [apply wf_wfb; exact W'|]. split; [exact S'|]. split; [apply same_tree_root; assumption|].
+  split; [exact Hsnd|]. split; [apply (tmatch_same_tree _ _ _ M S')|].
+  intros tr' Htr'. assert (tr' = tr) by congruence. subst tr'. exact Hl.
 Qed.
 
